@@ -14,17 +14,20 @@ func copyFile(f *File, newName string) (*File, error) {
 // copyDir copy directory and return new directories and files tree
 func copyDir(d *Dir, newName string) (*Dir, error) {
 	var err error
-	d.mu.RLock()
-	defer d.mu.RUnlock()
-	var nodescopy = make([]os.FileInfo, len(d.nodes))
-	for i := 0; i < len(d.nodes); i++ {
-		if d.nodes[i].IsDir() {
-			var dir = d.nodes[i].(*Dir)
+	// a snapshot of the listing: the directory is not kept locked while the nodes below it
+	// are copied. Waiting for the data lock of a file that is being streamed while the
+	// directory is locked blocks everybody who needs the directory - also the owner of
+	// that stream, who then never closes it
+	nodes := d.getNodes()
+	var nodescopy = make([]os.FileInfo, len(nodes))
+	for i := 0; i < len(nodes); i++ {
+		if nodes[i].IsDir() {
+			var dir = nodes[i].(*Dir)
 			if nodescopy[i], err = copyDir(dir, dir.Name()); err != nil {
 				return nil, err
 			}
 		} else {
-			var file = d.nodes[i].(*File)
+			var file = nodes[i].(*File)
 			if nodescopy[i], err = copyFile(file, file.Name()); err != nil {
 				return nil, err
 			}
